@@ -28,7 +28,20 @@
 
   Out-of-range writes are not silently dropped: `MPBuf.write` returns `none`
   (numpy: `IndexError`; a raw buffer: memory corruption) — the theorems show
-  that this never happens.
+  that this never happens for a permutation of the event indices, and that a
+  task index that is no event index (`n_events ≤ k`) IS reported
+  (`mpTask_event_index_out_of_range`, `C12.mp_bad_order_reported`).
+
+  NOT MODELLED — the float64 cast (finding F15).  The code converts the weights
+  with `np.float64(weights)` ONLY in this multi-process path (activation.py:172);
+  the single-process path, as shipped, summed in the weights' own dtype.  The
+  model has ONE scalar type `R` for both paths, so `activation_mp_eq_single`
+  (`activationMatrixMP … = activationMatrix …`) is a statement about exact
+  arithmetic, equivalently about the code on float64 weights, where the cast is
+  the identity.  On non-float64 weights (e.g. float32) the two real paths
+  differed in rounding; this is a discrepancy of the code, recorded as F15 and
+  repaired in /repo by summing with `dtype=np.float64` in the single-process
+  path (activation.py:167) — after that repair both paths add float64 numbers.
 -/
 import PyndlModel.Activation
 
@@ -104,7 +117,9 @@ def mpByEvent (nOut nEv : Nat) (cells : Array R) : List (List R) :=
 /-- **the multi-process matrix path of `activation()`**: policy and cue lookup
     of all events in the parent, then the tasks in the completion order `order`
     on a buffer with initial content `init`, then the reshape.  `.error .other`
-    = a store outside the buffer (never happens: `activation_mp_eq_single`).
+    = a store outside the buffer (never happens for a permutation `order`:
+    `activation_mp_eq_single`; happens for an `order` with an entry that is no
+    event index and at least one outcome row: `C12.mp_bad_order_reported`).
     Result in the orientation of `activationMatrix` (rows = events). -/
 def activationMatrixMP (p : DupPolicy) (ignoreMissing : Bool) (w : LW R) (evs : List (List String))
     (order : List Nat) (init : Array R) : Except Err (List (List R)) :=
